@@ -547,6 +547,32 @@ class Flow:
                 self._orig_rv(data, sub, out, seen, interproc, depth, bb, mut_calls)
             else:
                 self._orig_call(data, sub, out, seen, interproc, depth, bb, mut_calls)
+        # stores through a reference taken in this body (`r = &mut l; (*r).f = v` - what a spliced `&mut self` method leaves)
+        # define l.f as well
+        for (ubb, uidx, role) in self.uses.get(l, []):
+            if role != 'ref_mut' or uidx == 'term':
+                continue
+            st = b.blocks[ubb]['stmts'][uidx]
+            if st['dst']['proj']:
+                continue
+            bp_ = tuple((e['name'] if e['name'] != '' else str(e['f'])) for e in st['rv'].get('p', {}).get('proj', []) if isinstance(e, dict) and 'f' in e)
+            for r in self._ref_copies(st['dst']['l']):
+                for (bb, idx, kind, data, dproj) in self.defs.get(r, []):
+                    if not dproj or dproj[0] != 'deref' or bb in self.exclude_blocks:
+                        continue
+                    dpath = bp_ + tuple((e['name'] if e['name'] != '' else str(e['f'])) if 'f' in e else '[]' for e in dproj[1:]
+                                        if isinstance(e, dict) and ('f' in e or 'idx' in e or 'cidx' in e))
+                    rp_ = tuple(e for e in path if not _is_mark(e))
+                    if rp_[:len(dpath)] == dpath:
+                        sub = rp_[len(dpath):]
+                    elif dpath[:len(rp_)] == rp_:
+                        sub = ()
+                    else:
+                        continue
+                    if kind == 'assign':
+                        self._orig_rv(data, sub, out, seen, interproc, depth, bb, mut_calls)
+                    else:
+                        self._orig_call(data, sub, out, seen, interproc, depth, bb, mut_calls)
         if mut_calls:
             # calls that receive `&mut l` may write into it
             for (ubb, uidx, role) in self.uses.get(l, []):
@@ -570,6 +596,27 @@ class Flow:
                                 continue
                             for o in self.origins(a, (), depth, interproc, seen, mut_calls):
                                 out.add(o)
+
+    def _ref_copies(self, r, _seen=None):
+        """r and the locals that are plain moves / reborrows (`&mut *r`) of it"""
+        if _seen is None:
+            _seen = set()
+        if r in _seen:
+            return []
+        _seen.add(r)
+        out = [r]
+        for (bb, idx, role) in self.uses.get(r, []):
+            if idx == 'term':
+                continue
+            st = self.body.blocks[bb]['stmts'][idx]
+            rv = st['rv']
+            if st['dst']['proj']:
+                continue
+            if rv['k'] == 'use' and rv['ops'][0]['k'] != 'const' and rv['ops'][0]['p']['l'] == r and not rv['ops'][0]['p']['proj']:
+                out += self._ref_copies(st['dst']['l'], _seen)
+            elif rv['k'] == 'ref' and rv['p']['l'] == r and rv['p']['proj'] == ['deref']:
+                out += self._ref_copies(st['dst']['l'], _seen)
+        return out
 
     def _transitive_uses(self, l, _seen=None):
         """Uses of l and of locals that are plain copies/reborrows of l."""
